@@ -238,9 +238,11 @@ const (
 	OpWGAdd
 	OpWGWait
 	OpYield
+	OpSelect
+	OpSelectCase // choice among the ready cases of a select (not a thread switch)
 )
 
-var opNames = [...]string{"start", "lock", "unlock", "rlock", "runlock", "send", "recv", "close", "read", "write", "spawn", "once", "wgadd", "wgwait", "yield"}
+var opNames = [...]string{"start", "lock", "unlock", "rlock", "runlock", "send", "recv", "close", "read", "write", "spawn", "once", "wgadd", "wgwait", "yield", "select", "select-case"}
 
 func (k OpKind) String() string { return opNames[k] }
 
@@ -284,6 +286,11 @@ type thread struct {
 	recvDone bool // a sender (or close) completed this thread's pending recv
 	sendVal  any
 	sendDone bool
+	// pending select
+	selCases   []selCase
+	selDefault bool
+	selDone    bool // a partner thread completed one of the cases
+	selIdx     int
 	diverged bool
 	panicked any
 	stack    string
@@ -459,18 +466,15 @@ func (s *Sched) enabled(t *thread) bool {
 			return true
 		}
 		// rendezvous: need a receiver waiting on this channel
-		for _, o := range s.threads {
-			if o != t && !o.done && o.op.Kind == OpRecv && o.op.Obj == t.op.Obj && !o.recvDone {
-				return true
-			}
-		}
-		return false
+		return s.waitingReceiver(t, c) != nil
 	case OpRecv:
 		if t.recvDone {
 			return true
 		}
 		c := s.chanByName(t.op.Obj)
 		return len(c.buf) > 0 || c.closed
+	case OpSelect:
+		return t.selDone || t.selDefault || len(s.readyCases(t)) > 0
 	case OpWGWait:
 		for _, w := range s.wgs {
 			if w.name == t.op.Obj {
@@ -631,20 +635,80 @@ func Send[T any](ch chan<- T, v T) {
 	c := s.chanOf(ch, cap(ch))
 	t := s.cur
 	t.sendDone = false
+	t.sendVal = v
 	s.point(Op{Kind: OpSend, Obj: c.name})
+	if t.sendDone { // a selecting receiver took the value
+		t.sendDone = false
+		return
+	}
+	s.doSend(t, c, v)
+}
+
+// waitingReceiver returns a thread blocked in a receive (plain or as a case of
+// a select) on c that can take a value directly, or nil.
+func (s *Sched) waitingReceiver(t *thread, c *chanState) *thread {
+	if len(c.buf) != 0 {
+		return nil
+	}
+	for _, o := range s.threads {
+		if o == t || o.done {
+			continue
+		}
+		if o.op.Kind == OpRecv && o.op.Obj == c.name && !o.recvDone {
+			return o
+		}
+		if o.op.Kind == OpSelect && !o.selDone {
+			for _, sc := range o.selCases {
+				if !sc.send && sc.c == c {
+					return o
+				}
+			}
+		}
+	}
+	return nil
+}
+
+// waitingSender returns a thread blocked in a send (plain or select case) on c.
+func (s *Sched) waitingSender(t *thread, c *chanState) (*thread, int) {
+	for _, o := range s.threads {
+		if o == t || o.done {
+			continue
+		}
+		if o.op.Kind == OpSend && o.op.Obj == c.name && !o.sendDone {
+			return o, -1
+		}
+		if o.op.Kind == OpSelect && !o.selDone {
+			for j, sc := range o.selCases {
+				if sc.send && sc.c == c {
+					return o, j
+				}
+			}
+		}
+	}
+	return nil, -1
+}
+
+func (s *Sched) doSend(t *thread, c *chanState, v any) {
 	if c.closed {
 		panic("send on closed channel")
 	}
-	// prefer a waiting receiver
-	for _, o := range s.threads {
-		if o != t && !o.done && o.op.Kind == OpRecv && o.op.Obj == c.name && !o.recvDone && len(c.buf) == 0 {
-			o.recvVal, o.recvOK, o.recvDone = v, true, true
-			o.vc = o.vc.join(t.vc)
-			if c.cap == 0 {
-				t.vc = t.vc.join(o.vc) // rendezvous synchronises both ways
+	if o := s.waitingReceiver(t, c); o != nil {
+		o.recvVal, o.recvOK = v, true
+		if o.op.Kind == OpRecv {
+			o.recvDone = true
+		} else {
+			for j, sc := range o.selCases {
+				if !sc.send && sc.c == c {
+					o.selDone, o.selIdx = true, j
+					break
+				}
 			}
-			return
 		}
+		o.vc = o.vc.join(t.vc)
+		if c.cap == 0 {
+			t.vc = t.vc.join(o.vc) // rendezvous synchronises both ways
+		}
+		return
 	}
 	if len(c.buf) < c.cap {
 		c.buf = append(c.buf, v)
@@ -653,6 +717,181 @@ func Send[T any](ch chan<- T, v T) {
 	}
 	panic("verifrt: send scheduled while not enabled")
 }
+
+// doRecv performs a receive that is known to be possible.
+func (s *Sched) doRecv(t *thread, c *chanState) (any, bool) {
+	if len(c.buf) > 0 {
+		v := c.buf[0]
+		t.vc = t.vc.join(c.bufVC[0])
+		c.buf, c.bufVC = c.buf[1:], c.bufVC[1:]
+		return v, true
+	}
+	if c.closed {
+		t.vc = t.vc.join(c.vc)
+		return nil, false
+	}
+	if o, j := s.waitingSender(t, c); o != nil {
+		v := o.sendVal
+		if j >= 0 {
+			v = o.selCases[j].val
+			o.selDone, o.selIdx = true, j
+		} else {
+			o.sendDone = true
+		}
+		t.vc = t.vc.join(o.vc)
+		o.vc = o.vc.join(t.vc)
+		return v, true
+	}
+	panic("verifrt: recv scheduled while not enabled")
+}
+
+// ---- select
+
+type selCase struct {
+	c    *chanState // nil: nil channel, never ready
+	send bool
+	val  any
+}
+
+// SelCase is one communication clause of a select statement.
+type SelCase struct {
+	ch   reflect.Value
+	send bool
+	val  any
+}
+
+func SendCase[T any](ch chan<- T, v T) SelCase {
+	return SelCase{ch: reflect.ValueOf(ch), send: true, val: v}
+}
+func RecvCase[T any](ch <-chan T) SelCase { return SelCase{ch: reflect.ValueOf(ch)} }
+
+// SelResult is what Select returns: I is the index of the chosen clause (in
+// source order, not counting default; -1 = default).
+type SelResult struct {
+	I   int
+	val any
+	ok  bool
+}
+
+func RecvVal[T any](ch <-chan T, r SelResult) T {
+	if r.val == nil {
+		var zero T
+		return zero
+	}
+	return r.val.(T)
+}
+func RecvVal2[T any](ch <-chan T, r SelResult) (T, bool) { return RecvVal(ch, r), r.ok }
+
+func (s *Sched) readyCases(t *thread) []int {
+	var ready []int
+	for i, sc := range t.selCases {
+		if sc.c == nil {
+			continue
+		}
+		if sc.send {
+			if sc.c.closed || len(sc.c.buf) < sc.c.cap || s.waitingReceiver(t, sc.c) != nil {
+				ready = append(ready, i)
+			}
+		} else {
+			o, _ := s.waitingSender(t, sc.c)
+			if len(sc.c.buf) > 0 || sc.c.closed || o != nil {
+				ready = append(ready, i)
+			}
+		}
+	}
+	return ready
+}
+
+// subChoice records a choice among n alternatives that is not a thread switch.
+func (s *Sched) subChoice(t *thread, n int) int {
+	k := 0
+	if len(s.Points) < len(s.choices) {
+		k = s.choices[len(s.Points)]
+		if k < 0 || k >= n {
+			if s.BadReplay == "" {
+				s.BadReplay = fmt.Sprintf("point %d: select-case choice %d out of range (%d ready)", len(s.Points), k, n)
+			}
+			k = 0
+		}
+	}
+	en := make([]int, n)
+	for i := range en {
+		en[i] = -1 - i
+	}
+	s.Points = append(s.Points, Point{Enabled: en, Chosen: k, Running: t.id, RunningEnabled: false, Op: Op{Kind: OpSelectCase}})
+	return k
+}
+
+// Select replaces a select statement.
+func Select(hasDefault bool, cases ...SelCase) SelResult {
+	s := sched
+	if s == nil || s.aborting {
+		rc := make([]reflect.SelectCase, 0, len(cases)+1)
+		for _, c := range cases {
+			if c.send {
+				rc = append(rc, reflect.SelectCase{Dir: reflect.SelectSend, Chan: c.ch, Send: reflect.ValueOf(c.val)})
+			} else {
+				rc = append(rc, reflect.SelectCase{Dir: reflect.SelectRecv, Chan: c.ch})
+			}
+		}
+		if hasDefault {
+			rc = append(rc, reflect.SelectCase{Dir: reflect.SelectDefault})
+		}
+		i, v, ok := reflect.Select(rc)
+		if hasDefault && i == len(cases) {
+			return SelResult{I: -1}
+		}
+		r := SelResult{I: i, ok: ok}
+		if !cases[i].send && ok {
+			r.val = v.Interface()
+		}
+		return r
+	}
+	t := s.cur
+	t.selCases = t.selCases[:0]
+	var names []string
+	for _, c := range cases {
+		sc := selCase{send: c.send, val: c.val}
+		if !c.ch.IsNil() {
+			sc.c = s.chanOf(c.ch.Interface(), c.ch.Cap())
+			names = append(names, sc.c.name)
+		}
+		t.selCases = append(t.selCases, sc)
+	}
+	t.selDefault, t.selDone = hasDefault, false
+	s.point(Op{Kind: OpSelect, Obj: strings.Join(names, ",")})
+	if t.selDone { // a partner completed one of the cases
+		t.selDone = false
+		i := t.selIdx
+		if t.selCases[i].send {
+			return SelResult{I: i}
+		}
+		return SelResult{I: i, val: t.recvVal, ok: t.recvOK}
+	}
+	ready := s.readyCases(t)
+	if len(ready) == 0 {
+		if hasDefault {
+			return SelResult{I: -1}
+		}
+		panic("verifrt: select scheduled while not enabled")
+	}
+	i := ready[0]
+	if len(ready) > 1 {
+		i = ready[s.subChoice(t, len(ready))]
+	}
+	sc := t.selCases[i]
+	// mark this select as no longer pending before looking for partners
+	t.selDone = true
+	defer func() { t.selDone = false }()
+	if sc.send {
+		s.doSend(t, sc.c, sc.val)
+		return SelResult{I: i}
+	}
+	v, ok := s.doRecv(t, sc.c)
+	return SelResult{I: i, val: v, ok: ok}
+}
+
+func init() { _ = strings.Join }
 
 func recvInternal[T any](ch <-chan T) (T, bool) {
 	s := sched
